@@ -9,6 +9,9 @@ INSTR="-fsanitize=thread -mllvm -tsan-instrument-memory-accesses=0 -mllvm -tsan-
 # configuration parity with /repo's g++ build: concurrentqueue.hpp enables its thread-exit recycling for g++ >= 4.8 but
 # not for clang (which reports __GNUC__ 4.2); the header honours an outside definition
 INSTR="$INSTR -DMOODYCAMEL_CPP11_THREAD_LOCAL_SUPPORTED"
+# coverage audit build (scripts/coverage_audit.sh): clang source-based coverage on top of the same instrumentation
+LDCOV=""
+if [ -n "${VERIF_COV:-}" ]; then INSTR="$INSTR -fprofile-instr-generate -fcoverage-mapping"; mkdir -p "$V/build"; clang++-14 -c -fPIC -DPMC_COV_NAME=pmc_cov_write_lib "$V/rt/covreg.cpp" -o "$V/build/covreg_lib.o"; LDCOV=" -fprofile-instr-generate $V/build/covreg_lib.o"; fi
 COMMON=(-G Ninja -S "$SRC" -B "$B" -DCMAKE_BUILD_TYPE=Debug -DCMAKE_CXX_COMPILER=clang++-14 -DCMAKE_C_COMPILER=clang-14
   -DPIKA_WITH_TESTS=OFF -DPIKA_WITH_EXAMPLES=OFF -DPIKA_WITH_MALLOC=system
   -Dfmt_DIR=/usr/lib/x86_64-linux-gnu/cmake/fmt -DPIKA_WITH_UNITY_BUILD=ON -DPIKA_WITH_VERIFY_LOCKS=OFF
@@ -18,7 +21,7 @@ if [ ! -f "$B/.configured3" ]; then
   rm -rf "$B"; mkdir -p "$B"
   env -u CXXFLAGS cmake "${COMMON[@]}" "-DCMAKE_CXX_FLAGS_DEBUG=-O1 -g" > "$B/cmake1.log" 2>&1
   env -u CXXFLAGS cmake "${COMMON[@]}" "-DCMAKE_CXX_FLAGS_DEBUG=-O1 -g $INSTR" \
-     "-DCMAKE_SHARED_LINKER_FLAGS=-Wl,--unresolved-symbols=ignore-all" > "$B/cmake2.log" 2>&1
+     "-DCMAKE_SHARED_LINKER_FLAGS=-Wl,--unresolved-symbols=ignore-all$LDCOV" > "$B/cmake2.log" 2>&1
   touch "$B/.configured3"
 fi
 ninja -C "$B" pika > "$B/ninja.log" 2>&1 || { tail -40 "$B/ninja.log"; exit 1; }
